@@ -538,8 +538,7 @@ def run(ctx):
     from ..shared import wrap_flag_owner_rule as _wrap_flag_owner_rule
 
     # 'for every energy split': also when the MATERIAL is given per element (and the toughness is not, or the reverse)
-    if os.environ.get("VERIF_PENDING_F88"):
-        ctx.attempt(_wrap_flag_owner_rule, ctx, "R17.22", lambda f: f.module.name.startswith(("EasyFEA.Models._phasefield", "EasyFEA.Simulations._phasefield")))
+    ctx.attempt(_wrap_flag_owner_rule, ctx, "R17.22", lambda f: f.module.name.startswith(("EasyFEA.Models._phasefield", "EasyFEA.Simulations._phasefield")))
     from ..shared import per_group_state_rule as _per_group_state_rule
 
     ctx.attempt(_per_group_state_rule, ctx, "R17.18", lambda f: f.qualname.startswith("EasyFEA.Simulations."), 5)
